@@ -672,6 +672,14 @@ func r18Pairing(c *core.Ctx, p *load.Program, txnI *types.Interface) {
 						if c2.Call.IsInvoke() && (c2.Call.Method.Name() == "Commit" || c2.Call.Method.Name() == "Abort") && s.Resolve(c2.Call.Value) == ssa.Value(txn) {
 							s.Counts["ended"] = 1
 						}
+						// a helper that ends the transaction it is given on all its paths
+						if callee := ssax.StaticCallee(c2); callee != nil && p.InModule(callee) {
+							for ai, a := range c2.Call.Args {
+								if s.Resolve(a) == ssa.Value(txn) && ai < len(callee.Params) && endsTxn(callee, callee.Params[ai]) {
+									s.Counts["ended"] = 1
+								}
+							}
+						}
 					},
 					Branch: func(s *ssax.PathState, cond ssa.Value, taken bool) {
 						// prune: error of a validation-only-failing callee is non-nil
@@ -753,4 +761,25 @@ func validationOnlyFailure(fn *ssa.Function) bool {
 // isValidPathCall: call to hackpadfs.ValidPath or io/fs.ValidPath.
 func isValidPathCall(cl *ssa.Call) bool {
 	return ssax.CalleeIs(cl, mod, "ValidPath") || ssax.CalleeIs(cl, "io/fs", "ValidPath")
+}
+
+// endsTxn: every path of fn invokes Commit or Abort on parameter prm.
+func endsTxn(fn *ssa.Function, prm *ssa.Parameter) bool {
+	if fn.Blocks == nil {
+		return false
+	}
+	all := true
+	ssax.EnumPaths(fn, fn.Blocks[0], 0, nil, ssax.PathHooks{
+		Instr: func(s *ssax.PathState, ins ssa.Instruction) {
+			if c, ok := ins.(*ssa.Call); ok && c.Call.IsInvoke() && (c.Call.Method.Name() == "Commit" || c.Call.Method.Name() == "Abort") && s.Resolve(c.Call.Value) == ssa.Value(prm) {
+				s.Counts["ended"] = 1
+			}
+		},
+		End: func(s *ssax.PathState, _ ssa.Instruction) {
+			if s.Counts["ended"] == 0 {
+				all = false
+			}
+		},
+	})
+	return all
 }
